@@ -295,3 +295,4 @@ Proof.
   - exact Hans.
   - destruct v; [split; [discriminate | apply Hstuck] | discriminate].
 Qed.
+
